@@ -1,4 +1,4 @@
 SPECIFICATION Spec
-CONSTANTS Tier = "big" PadFix = TRUE AppendFix = TRUE PoolFix = TRUE
+CONSTANTS Tier = "big" PadFix = TRUE AppendFix = TRUE PoolFix = TRUE FinalizerFix = TRUE
 INVARIANTS NotBad
 CHECK_DEADLOCK FALSE
